@@ -191,11 +191,16 @@ def ref_times(song):
             t += dt; times.add(time_of(t))
     return sorted(times)
 
-def seek_history(rng, song):
+def seek_history(rng, song, loop=False, loop_p=0.5):
     h = [{"e": "Init", "rate": 44100, "chips": 2}, song, {"e": "SetHooks"}]
     if rng.random() < 0.3:
         # a tempo multiplier: seek targets, reported positions and delivery times stay in song time
         m = rng.choice([(2, 1), (1, 2), (3, 2), (4, 5)]); h.append({"e": "SetTempo", "num": m[0], "den": m[1]})
+    looped = loop and rng.random() < loop_p
+    if looped:
+        # looping on, finite count: the target lies before the loop end in most cases; what follows the seek is then what
+        # a linear looping playback delivers after the target (rest of this pass, the remaining passes, the tail)
+        h += [{"e": "SetLoop", "en": 1}, {"e": "SetLoopCount", "n": rng.choice([1, 2, 2, 3])}]
     h.append({"e": "Load"})
     ts = ref_times(song)
     last = ts[-1] if ts else 0
